@@ -2,7 +2,9 @@
 //
 // Every case is one real TCP connection to a real nsqd: the driver writes a generated
 // byte stream (in one piece, or in pieces when later commands need the id of a message
-// the daemon has just delivered), half-closes, and records every frame until EOF, the
+// the daemon has just delivered), half-closes (or, when the input says hold_ms, keeps its
+// side open and watches whether the daemon closes the connection by itself within that
+// window: last frame OClosed / OOpen), and records every frame until EOF, the
 // change of the daemon's topic message counters (HTTP /stats), whether the daemon is
 // still alive and whether a concurrent well-behaved client on another connection was
 // served meanwhile.  Sessions (a consumer that holds messages and answers them with FIN /
@@ -54,8 +56,9 @@ const (
 
 // ---------------------------------------------------------------- inputs
 type Step struct {
-	K    string `json:"k"`              // send | wait | sendid
-	Hex  string `json:"hex,omitempty"`  // send: the bytes; sendid: the bytes before the id
+	K    string `json:"k"`              // send | wait | sendid | fill
+	Hex  string `json:"hex,omitempty"`  // send: the bytes; sendid: the bytes before the id; fill: the byte that is repeated
+	N    int    `json:"n,omitempty"`    // fill: how many times
 	Slot int    `json:"slot,omitempty"` // sendid: index of the received message whose id is inserted
 	Post string `json:"post,omitempty"` // sendid: the bytes after the id
 }
@@ -74,6 +77,10 @@ type Input struct {
 	// publish of such a case goes to ChanTopic, which no other case uses.
 	ChanTopic string `json:"chan_topic,omitempty"`
 	ChanName  string `json:"chan_name,omitempty"`
+	// when > 0: the client does NOT half-close after its last byte; it keeps the connection
+	// open and watches for this many milliseconds whether the daemon closes it by itself
+	// (recorded as the last frame: OClosed, or OOpen when the window ended first)
+	HoldMs int `json:"hold_ms,omitempty"`
 }
 
 // index of a command in ProtoSpec.all_cmds
@@ -91,6 +98,22 @@ const (
 	cCls
 	cAuth
 	cUnknown
+	// pseudo-commands (J09.i_too_long / i_bad_magic / i_short_magic)
+	iTooLong    = 13
+	iBadMagic   = 14
+	iShortMagic = 15
+)
+
+// the size of a connection's read buffer (nsqd/client_v2.go defaultBufferSize): a command
+// line, delimiter included, fits it or is refused
+const lineBuf = 16384
+
+// how long a case that keeps its side open watches a connection the daemon must close by
+// itself (an unmodified daemon closes at once; the window only bounds a failing run), and
+// one it must keep open (any length gives the same observation)
+const (
+	holdClose = 4000
+	holdOpen  = 300
 )
 
 var cmdNames = []string{"IDENTIFY", "FIN", "RDY", "REQ", "PUB", "MPUB", "DPUB", "NOP", "TOUCH", "SUB", "CLS", "AUTH", "?"}
@@ -826,29 +849,152 @@ func genMagic(r *lib.Rand) Input {
 	if len(m) == 4 && r.Chance(60) {
 		buf.WriteString("NOP\n")
 	}
-	return Input{Class: "magic", Daemon: "inproc", Steps: []Step{send(buf.Bytes())}, Tags: []string{fmt.Sprintf("magic=%q", m)}}
+	in := Input{Class: "magic", Daemon: "inproc", Steps: []Step{send(buf.Bytes())}, Tags: []string{fmt.Sprintf("magic=%q", m)}}
+	if len(m) == 4 {
+		// not a protocol this daemon speaks: E_BAD_PROTOCOL, then the close - also when the client keeps its side open
+		in.Intent = [][]int64{{iBadMagic, 0, 0, 0}}
+		if r.Chance(30) {
+			in.HoldMs = holdClose
+			in.Tags = append(in.Tags, "end=hold")
+		}
+	} else {
+		in.Intent = [][]int64{{iShortMagic, 0, 0, 0}}
+	}
+	return in
+}
+
+// ---------------------------------------------------------------- command lines around the read buffer
+// A command line, delimiter included, fits the connection's 16384-byte read buffer or is
+// refused: the connection is closed without a reply, nothing of the line (or after it) is
+// executed, and the daemon does not wait for the end of the line.  lineCase builds one
+// connection: a way into a connection state, then one line of a given content, total
+// length (delimiter included), delimiter ("\n", "\r\n", or "" = never terminated) and
+// ending (the client half-closes, or keeps its side open and watches).
+var lineKinds = []struct {
+	name   string
+	prefix string
+	fillB  byte
+	idx    int64 // the command the line is when it fits
+	n      int64
+	valid  int64
+	body   string
+}{
+	{"nop+param", "NOP ", 'x', cNop, 0, 1, ""},
+	{"pub+param", "PUB t1 ", 'y', cPub, 1, 1, "\x00\x00\x00\x02hi"},
+	{"pub-longtopic", "PUB ", 'a', cPub, 1, 0, "\x00\x00\x00\x02hi"},
+	{"unknown", "", 'z', cUnknown, 0, 1, ""},
+	{"sub-longchannel", "SUB t2 ", 'c', cSub, 0, 0, ""},
+	{"spaces", "", ' ', cUnknown, 0, 1, ""},
+	{"fin-longid", "FIN ", '0', cFin, 0, 0, ""},
+	{"binary", "\x00\xff\x00\x0d", 0x80, cUnknown, 0, 1, ""},
+}
+
+func lineCase(class string, daemon string, state int, kind int, total int, term string, hold bool) Input {
+	pre := statePreludes[state]
+	k := lineKinds[kind]
+	steps := []Step{send([]byte("  V2" + pre.s + k.prefix))}
+	nfill := total - len(term) - len(k.prefix)
+	steps = append(steps, Step{K: "fill", Hex: hex.EncodeToString([]byte{k.fillB}), N: nfill})
+	intent := append([][]int64{}, pre.intent...)
+	tooLong := total > lineBuf || (term == "" && total >= lineBuf)
+	tail := term
+	switch {
+	case tooLong:
+		intent = append(intent, []int64{iTooLong, 0, 0, 0})
+		if term != "" {
+			// what follows the line must not be executed either
+			tail += k.body + "NOP\nPUB t2\n\x00\x00\x00\x01z"
+		}
+	case term == "":
+		// an unfinished line that still fits: the daemon waits for its end (or sees the client's EOF)
+	default:
+		intent = append(intent, []int64{k.idx, k.n, k.valid, 0}, []int64{cPub, 1, 1, 0})
+		tail += k.body + "PUB t2\n\x00\x00\x00\x01z"
+	}
+	if tail != "" {
+		steps = append(steps, send([]byte(tail)))
+	}
+	tname := map[string]string{"\n": "lf", "\r\n": "crlf", "": "none"}[term]
+	fit := "fits"
+	if tooLong {
+		fit = "too-long"
+	}
+	end := "eof"
+	in := Input{Class: class, Daemon: daemon, Steps: steps, Intent: intent}
+	if hold {
+		end = "hold"
+		in.HoldMs = holdOpen
+		if tooLong || (term != "" && (k.valid == 0 || k.idx == cUnknown)) {
+			in.HoldMs = holdClose // the daemon must close by itself
+		}
+	}
+	in.Tags = []string{fmt.Sprintf("line_bytes=%d", total), "line_kind=" + k.name, "line_term=" + tname, "line_end=" + end, "line_state=" + pre.name,
+		fmt.Sprintf("line=%s:%s:%s:%s", pre.name, fit, tname, end)}
+	return in
+}
+
+// the fixed part, on every run: every connection state x every line content with a line
+// that does not fit (one byte too long ... several buffers; terminated by \n, by \r\n, or
+// never; the client half-closing or holding the connection open), every content at the two
+// longest lengths that still fit, and the plain "hold" behaviour: a fatal error and a wrong
+// magic close the connection without the client's EOF, a connection with nothing wrong
+// stays open
+func genLines() []Input {
+	var ins []Input
+	lens := []int{lineBuf + 1, lineBuf + 2, 20000, 2*lineBuf + 5, lineBuf + 1, 40000}
+	terms := []string{"\n", "\r\n", ""}
+	i := 0
+	for st := range statePreludes {
+		for kd := range lineKinds {
+			total := lens[i%len(lens)]
+			term := terms[(i/2)%3]
+			hold := i%2 == 0
+			if term == "" && i%4 == 1 {
+				total = lineBuf // a full buffer exactly, never terminated
+			}
+			ins = append(ins, lineCase("line", []string{"inproc", "sub"}[i%2], st, kd, total, term, hold))
+			i++
+		}
+	}
+	for kd := range lineKinds {
+		for j, lt := range []struct {
+			total int
+			term  string
+		}{{lineBuf, "\n"}, {lineBuf, "\r\n"}, {lineBuf - 1, "\n"}} {
+			ins = append(ins, lineCase("line", []string{"sub", "inproc"}[(kd+j)%2], (kd+j)%len(statePreludes), kd, lt.total, lt.term, (kd+j)%3 == 0))
+		}
+	}
+	// an unfinished line one byte short of the buffer, the client holding on: the daemon waits
+	// (or sees the client's EOF); and the longest \r\n line that fits, the client holding on
+	for st := range statePreludes {
+		ins = append(ins, lineCase("line", "inproc", st, st%len(lineKinds), lineBuf-1, "", true),
+			lineCase("line", "sub", st, (st+4)%len(lineKinds), lineBuf-1, "", false),
+			lineCase("line", "inproc", st, (st+1)%len(lineKinds), lineBuf, "\r\n", true))
+	}
+	// the witness of the seeded change C09-m6: 64 KiB without a delimiter, the client holding
+	// on; and a terminated 32 KiB topic name
+	ins = append(ins, lineCase("line", "sub", 0, 3, 65536, "", true), lineCase("line", "sub", 0, 2, 4+32768+1, "\n", false))
+	// holding on, nothing over-long: every state, after a command that is refused / with nothing wrong
+	for _, pre := range statePreludes {
+		fatal := append(append([][]int64{}, pre.intent...), []int64{cUnknown, 0, 1, 0})
+		ins = append(ins, Input{Class: "hold", Daemon: "sub", Steps: []Step{send([]byte("  V2" + pre.s + "BOGUS\n"))}, Intent: fatal, HoldMs: holdClose,
+			Tags: []string{"hold=" + pre.name + ":fatal"}})
+		ins = append(ins, Input{Class: "hold", Daemon: "inproc", Steps: []Step{send([]byte("  V2" + pre.s + "NOP\n"))},
+			Intent: append(append([][]int64{}, pre.intent...), []int64{cNop, 0, 1, 0}), HoldMs: holdOpen, Tags: []string{"hold=" + pre.name + ":open"}})
+	}
+	ins = append(ins, Input{Class: "hold", Daemon: "inproc", Steps: []Step{send([]byte("  V1"))}, Intent: [][]int64{{iBadMagic, 0, 0, 0}}, HoldMs: holdClose, Tags: []string{"hold=bad-magic"}},
+		Input{Class: "hold", Daemon: "inproc", Steps: []Step{send([]byte("  V"))}, Intent: [][]int64{}, HoldMs: holdOpen, Tags: []string{"hold=short-magic"}})
+	return ins
 }
 
 func genLongLine(r *lib.Rand, k int) Input {
-	// the read buffer holds 16384 bytes: a line of exactly 16384 bytes (delimiter included)
-	// still fits, one more byte does not
-	total := []int{16384, 16385, 16383, 20000, 16384, 16385}[k%6]
-	var buf bytes.Buffer
-	buf.WriteString("  V2")
-	pre := []string{"NOP ", "PUB t1 ", "NOP ", "FOO", "NOP ", "PUB t1 "}[k%6]
-	buf.WriteString(pre)
-	for buf.Len()-4 < total-1 {
-		buf.WriteByte("xyz"[r.Intn(3)])
+	total := []int{lineBuf, lineBuf + 1, lineBuf - 1, 20000, lineBuf + 2, lineBuf + 1 + r.Intn(3*lineBuf)}[k%6]
+	term := []string{"\n", "\n", "\r\n", ""}[r.Intn(4)]
+	hold := r.Chance(25)
+	if term == "" && total < lineBuf && !hold {
+		term = "\n"
 	}
-	buf.WriteString("\n")
-	if strings.HasPrefix(pre, "PUB") {
-		buf.Write(be(2))
-		buf.WriteString("hi")
-	}
-	buf.WriteString("NOP\nPUB t2\n")
-	buf.Write(be(1))
-	buf.WriteString("z")
-	return Input{Class: "longline", Daemon: "inproc", Steps: []Step{send(buf.Bytes())}, Tags: []string{fmt.Sprintf("line_bytes=%d", total)}}
+	return lineCase("longline", []string{"inproc", "sub"}[r.Intn(2)], r.Intn(len(statePreludes)), r.Intn(len(lineKinds)), total, term, hold)
 }
 
 func genGarbage(r *lib.Rand) Input {
@@ -1868,6 +2014,24 @@ type runner struct {
 	aborted int
 	crashes int
 	pairs   map[string]int // (connection state : command : argument class) -> cases that executed it
+	lines   map[string]int // (connection state : fits / too-long : delimiter : ending) -> cases
+	opens   int            // cases that ended with the connection still held open
+}
+
+// the cells of the command-line table: connection state x (the line fits the read buffer /
+// does not) x delimiter x (client half-closes / holds the connection open)
+func allLineCells() []string {
+	var out []string
+	for _, st := range pairStates {
+		for _, fit := range []string{"fits", "too-long"} {
+			for _, tm := range []string{"lf", "crlf", "none"} {
+				for _, end := range []string{"eof", "hold"} {
+					out = append(out, fmt.Sprintf("line=%s:%s:%s:%s", st, fit, tm, end))
+				}
+			}
+		}
+	}
+	return out
 }
 
 // ---------------------------------------------------------------- pair coverage
@@ -1906,7 +2070,10 @@ func pairTags(intent [][]int64, ndeliv int, respN int, upgraded bool) []string {
 		if len(e) > 3 {
 			slot = e[3]
 		}
-		if c < 0 || c > cUnknown {
+		if c > cUnknown {
+			break // an over-long line / a wrong magic: no command is executed from here on
+		}
+		if c < 0 {
 			c = cUnknown
 		}
 		st := []string{"init", "sub", "closing"}[state]
@@ -2122,8 +2289,14 @@ func (rn *runner) run(name string, in Input) {
 			break
 		}
 		switch st.K {
-		case "send", "sendid":
+		case "send", "sendid", "fill":
 			b, _ := hex.DecodeString(st.Hex)
+			if st.K == "fill" {
+				if st.N < 0 || st.N > 1<<22 || len(b) != 1 {
+					lib.Fatalf("bad fill step")
+				}
+				b = bytes.Repeat(b, st.N)
+			}
 			if st.K == "sendid" {
 				if st.Slot >= len(ids) {
 					aborted = true
@@ -2161,13 +2334,33 @@ func (rn *runner) run(name string, in Input) {
 		wg.Wait()
 		return
 	}
-	tc.CloseWrite()
-	for !closed && !upgraded && !timedOut {
-		f, ok := <-frames
-		if !ok {
-			break
+	eof := in.HoldMs <= 0
+	if eof {
+		tc.CloseWrite()
+		for !closed && !upgraded && !timedOut {
+			f, ok := <-frames
+			if !ok {
+				break
+			}
+			handle(f)
 		}
-		handle(f)
+	} else {
+		// the client keeps its side open: does the daemon close the connection by itself?
+		window := time.After(time.Duration(in.HoldMs) * time.Millisecond)
+		for open := true; open && !closed && !upgraded; {
+			select {
+			case f, ok := <-frames:
+				if !ok {
+					open = false
+					break
+				}
+				handle(f)
+			case <-window:
+				open = false
+				coqFrames = append(coqFrames, "J09.OOpen")
+				tags = append(tags, "close=none(still open)")
+			}
+		}
 	}
 	conn.Close()
 	wg.Wait()
@@ -2229,14 +2422,22 @@ func (rn *runner) run(name string, in Input) {
 		chanT = fmt.Sprintf("(Some (%s, %s, %s, %s))", lib.CoqZ(ob[0]), lib.CoqZ(ob[1]), lib.CoqZ(ob[2]), lib.CoqZ(ob[3]))
 		tags = append(tags, fmt.Sprintf("chan:in-flight=%d", ob[1]), fmt.Sprintf("chan:deferred=%d", ob[2]), fmt.Sprintf("chan:requeues=%d", ob[3]))
 	}
-	coq := fmt.Sprintf("(J09.Conn %s %s %s %s %s %s %s %s %s %s %s)", d.coqCfg, lib.CoqBytes(stream.Bytes()), jsonTable(stream.Bytes()),
-		lib.CoqList(idStrs), full, lib.CoqList(coqFrames), lib.CoqZ(enq), lib.CoqBool(alive), lib.CoqBool(bystOK), intent, chanT)
+	coq := fmt.Sprintf("(J09.Conn %s %s %s %s %s %s %s %s %s %s %s %s)", d.coqCfg, coqStream(stream.Bytes()), jsonTable(stream.Bytes()),
+		lib.CoqList(idStrs), full, lib.CoqList(coqFrames), lib.CoqZ(enq), lib.CoqBool(alive), lib.CoqBool(bystOK), intent, chanT, lib.CoqBool(eof))
 	if in.Daemon != "tls" {
 		pt := pairTags(in.Intent, len(ids), respN, upgraded)
 		for _, t := range pt {
 			rn.pairs[t]++
 		}
 		tags = append(tags, pt...)
+	}
+	for _, t := range in.Tags {
+		if strings.HasPrefix(t, "line=") {
+			rn.lines[t]++
+		}
+	}
+	if !eof && !closed && !upgraded {
+		rn.opens++
 	}
 	alltags := append([]string{"class=" + in.Class, "daemon=" + in.Daemon}, in.Tags...)
 	alltags = append(alltags, tags...)
@@ -2250,6 +2451,35 @@ func (rn *runner) run(name string, in Input) {
 	rn.o.Emit(lib.Case{Name: name, Coq: coq, Input: in, Tags: alltags,
 		Nontrivial: respN > 0 || enq > 0 || len(coqFrames) > 1,
 		Obs:        map[string]interface{}{"frames": coqFrames, "enqueued": enq, "alive": alive, "bystander": bystOK, "stream_len": stream.Len(), "msgs_received": len(ids), "chan_after": chanObs}})
+}
+
+// the bytes the client wrote, as a Coq term: long runs of one byte (the filler of the
+// over-long lines) are written as (J09.fill n byte), the rest as lib.CoqBytes
+func coqStream(b []byte) string {
+	const minRun = 96
+	var parts []string
+	lit := 0 // start of the pending literal piece
+	for i := 0; i < len(b); {
+		j := i
+		for j < len(b) && b[j] == b[i] {
+			j++
+		}
+		if j-i >= minRun {
+			if i > lit {
+				parts = append(parts, lib.CoqBytes(b[lit:i]))
+			}
+			parts = append(parts, fmt.Sprintf("(J09.fill %d %d)", j-i, b[i]))
+			lit = j
+		}
+		i = j
+	}
+	if len(parts) == 0 {
+		return lib.CoqBytes(b)
+	}
+	if lit < len(b) {
+		parts = append(parts, lib.CoqBytes(b[lit:]))
+	}
+	return "(J09.cat " + lib.CoqList(parts) + ")"
 }
 
 func dedupe(xs []string) []string {
@@ -2273,7 +2503,7 @@ func main() {
 	flag.Parse()
 	o := lib.NewOut(*out)
 	defer o.Close()
-	rn := &runner{o: o, daemons: map[string]*daemon{}, pairs: map[string]int{}}
+	rn := &runner{o: o, daemons: map[string]*daemon{}, pairs: map[string]int{}, lines: map[string]int{}}
 	defer func() {
 		for _, d := range rn.daemons {
 			d.stop()
@@ -2298,6 +2528,9 @@ func main() {
 	}
 	for k, in := range genProbes() {
 		rn.run(fmt.Sprintf("probe-%d", k), in)
+	}
+	for k, in := range genLines() {
+		rn.run(fmt.Sprintf("line-%d", k), in)
 	}
 	for v := 0; v < 36; v += 1 + int(*seed%3) { // every run: a third to all of the 36 variants
 		rn.run(fmt.Sprintf("overlong-%d", v), genOverlong(int(*seed%100000), v))
@@ -2344,6 +2577,17 @@ func main() {
 	}
 	o.Stat("pairs_state_x_command_x_argclass_executed", fmt.Sprintf("%d/%d", covered, len(allPairs())))
 	o.Stat("pairs_not_executed", missing)
+	lcov, lmiss := 0, []string{}
+	for _, c := range allLineCells() {
+		if rn.lines[c] > 0 {
+			lcov++
+		} else {
+			lmiss = append(lmiss, strings.TrimPrefix(c, "line="))
+		}
+	}
+	o.Stat("line_cells_state_x_fit_x_delimiter_x_ending", fmt.Sprintf("%d/%d", lcov, len(allLineCells())))
+	o.Stat("line_cells_missing", lmiss)
+	o.Stat("cases_ending_with_the_connection_held_open", rn.opens)
 	o.Stat("interactive_cases_aborted_no_delivery", rn.aborted)
 	o.Stat("daemon_deaths", rn.crashes)
 }
